@@ -155,6 +155,17 @@ pub fn mk_params(q: i32, lgwin: i32, favor: bool, catable: bool, appendable: boo
 pub fn gen_input(rng: &mut Rng, n: usize, kind: u64) -> Vec<u8> {
     let mut v = Vec::with_capacity(n);
     if kind == 5 { return gen_dict_text(rng, n); }
+    if kind == 6 {
+        // records | noise | counters (4 : 4 : 1): a job that starts inside the noise stores its first
+        // meta-block(s) raw and later codes copies at the initial-ring distances 4 / 8 / 12 / 16
+        let a = n * 4 / 9; let b = n * 8 / 9;
+        let rec: Vec<u8> = (0..7).map(|_| rng.next() as u8).collect();
+        for i in 0..a { v.push(if i % 7 == 6 { (i / 7) as u8 } else { rec[i % 7] }); }
+        for _ in a..b { v.push(rng.next() as u8); }
+        let step = *rng.pick(&[4usize, 4, 11, 15, 16]);
+        for i in b..n { let k = (i - b) / step; v.push(if (i - b) % step == 0 { k as u8 } else { ((i - b) % step) as u8 ^ 0x5a }); }
+        return v;
+    }
     match kind % 5 {
         0 => { for _ in 0..n { v.push(rng.next() as u8); } } // incompressible
         1 => { // text-like with long-range repeats
@@ -785,6 +796,22 @@ fn run_shard(args: &Args, task: usize) {
         let mut rng = Rng::new(seed ^ 0x31D0 ^ ((task as u64) << 20) ^ ((k as u64) << 36));
         let c = Case { q: *rng.pick(&[2, 2, 2, 3, 4, 4]), lgwin: rng.range(17, 22) as i32, large: false, favor: rng.chance(1, 2), catable: rng.chance(1, 4), appendable: rng.chance(1, 4), magic: rng.chance(1, 4),
             t: rng.range(2, 6) as usize, n: rng.range(100 << 10, 400 << 10) as usize, kind: 5, dseed: rng.next(), size_hint: 0 };
+        large_case(&c, &mut rep, &mut pool_l);
+    }
+    // ---- "raw first meta-block of a later job" class: records | noise | short-period counters with the job
+    // boundary inside the noise and at least one whole meta-block of noise behind it (a meta-block of
+    // literals only ends at 2^(1+max(lgwin,lgblock)) bytes), so that job k > 0 opens with a meta-block
+    // stored raw — the distance-ring rollback on that path must keep the catable placeholder — and then
+    // codes copies at distance 4 / 11 / 15 / 16 while the decoder still holds the previous job's ring.
+    let nraw = if thorough { 12 } else { 1 };
+    for k in 0..nraw {
+        let mut rng = Rng::new(seed ^ 0x4A3 ^ ((task as u64) << 20) ^ ((k as u64) << 36));
+        let q = *rng.pick(&[2, 3, 4, 5, 6, 9, 10]);
+        let lgwin = if q <= 3 { rng.range(10, 14) as i32 } else { rng.range(10, 16) as i32 };
+        let m = if q <= 3 { 1usize << 15 } else { 1usize << 17 };
+        let t = rng.range(2, 3) as usize;
+        let n = m * 9 / 2 + rng.below(2000) as usize;
+        let c = Case { q: if q == 10 && m > (1 << 15) { 9 } else { q }, lgwin, large: false, favor: rng.chance(1, 3), catable: false, appendable: false, magic: rng.chance(1, 4), t, n, kind: 6, dseed: rng.next(), size_hint: 0 };
         large_case(&c, &mut rep, &mut pool_l);
     }
     // ---- "window edge" class: some job k > 0 starts EXACTLY at (1 << lgwin) - 16 + d, d in -2..=2 —
